@@ -88,6 +88,8 @@ class Renderer:
         if op == "aidx":
             i = e[2]
             return f"{self.ref(e[1])}[{i[1] if i[0] == 'const' else self.rx(i)}]"
+        if op == "tobool":
+            return f"bool({self.rx(e[1])})"
         if op == "ridx":  # bit of a vector selected by a run-time index
             return f"{self.rx(e[1])}[{self.rx(e[2])}]"
         raise AssertionError(op)
@@ -304,6 +306,7 @@ class Env:
         self.var_vecs = [o["name"] for o in spec.get("vars", []) if o["kind"] == "u"]
         self.loc_bits = []
         self.loc_vecs = []
+        self.loc_bools = []
         self.counter = [0]
         self.helpers = spec.get("helpers", [])
         self.subs = spec.get("subs", [])
@@ -316,6 +319,7 @@ class Env:
     def inputs_only(self):
         c = self.child()
         c.sig_vecs, c.sig_bits, c.var_vecs, c.var_bits, c.loc_vecs, c.loc_bits = [], [], [], [], [], []
+        c.loc_bools = []
         c.readable_sigs = False
         return c
 
@@ -324,6 +328,7 @@ class Env:
         c = copy.copy(self)
         c.loc_bits = list(self.loc_bits)
         c.loc_vecs = list(self.loc_vecs)
+        c.loc_bools = list(self.loc_bools)
         return c
 
 
@@ -405,6 +410,8 @@ def cond_expr(env, depth=2):
     b = bit_expr(env, 1)
     nc = nonconst_vec_leaf(env)
     opts = [b, b]
+    if env.loc_bools:
+        opts.append(st.sampled_from(env.loc_bools).map(lambda n: ["loc", n, 1]))
     if nc is not None:
         cmp_ = st.tuples(st.just("cmp"), st.sampled_from(["==", "!=", "!=", "<", "<=", "<=", ">", ">=", ">="]), nc,
                          st.one_of(vec_leaf(env), st.integers(0, (1 << env.W) - 1).map(lambda v: ["const", v]))).map(list)
@@ -494,6 +501,12 @@ def simple_stmt(draw, env):
         if e is not None:
             env.loc_vecs.append(name)
             return {"k": "bind", "bind": name, "e": e}
+    if draw(st.integers(0, 2)) == 0:
+        # truth value of a (possibly already boolean) intermediate: bool(x), bool(bool(x)) chains
+        name = env.fresh("tq")
+        inner = draw(cond_expr(env, 1))
+        env.loc_bools.append(name)
+        return {"k": "bind", "bind": name, "e": ["tobool", inner]}
     name = env.fresh("tb")
     e = draw(bit_expr(env, 2))
     if e[0] in ("bconst", "in", "sig", "var", "loc"):
